@@ -20,6 +20,19 @@ def STATIC : Text := cs!"libninja: static"
 def AFTER : Text := cs!"libninja: after"
 def DHC : Text := cs!"default_http_client"
 
+/-- ASCII bytes of a text (for directives inside non-UTF-8 files) -/
+def bytesOf (t : Text) : List Nat := t.map Char.toNat
+
+/-- the file *contains the directive* `m`, whatever its encoding -/
+def Content.contains (m : Text) : Content → Bool
+  | .text t => isSub m t
+  | .binary b => isSub (bytesOf m) b
+
+/-- `is_static(path)`: the directive is looked for in the file's bytes, so a file that is not valid UTF-8 counts too -/
+def isStaticC : Option Content → Bool
+  | some c => c.contains STATIC
+  | none => false
+
 /-- `fs::read_to_string(path).unwrap_or_default()` -/
 def readText : Option Content → Text
   | some (.text t) => t
@@ -50,15 +63,10 @@ def CodeSpec.fresh (cs : CodeSpec) : Text := cs.render []
 /-- `write_with_content` on one path: `prior` is what is on disk. -/
 def writeOne (cs : CodeSpec) (prior : Option Content) : Option Content :=
   let t := readText prior
-  if isSub STATIC t then prior
+  if isStaticC prior then prior
   else match splitOnce AFTER t with
     | some (pre, _) => some (.text (pre ++ AFTER ++ ['\n'] ++ cs.render t))
     | none => some (.text (cs.render t))
-
-/-- cleanup's test: `read_to_string(p).map(|c| c.contains("libninja: static")).unwrap_or(false)` -/
-def isStaticC : Option Content → Bool
-  | some (.text t) => isSub STATIC t
-  | _ => false
 
 /-- One generation seen from one path: `outs` are the writes addressed to the path, in order;
 `scope` says whether cleanup looks at it (a `.rs` file under `src/` or `examples/`). -/
@@ -109,8 +117,8 @@ inductive Partial1 (cs : CodeSpec) (c0 : Option Content) : Option Content → Pr
   | untouched : Partial1 cs c0 c0
   | written : Partial1 cs c0 (writeOne cs c0)
   | tornText (new : Text) (n : Nat) (h : writeOne cs c0 = some (.text new))
-      (hs : isSub STATIC (readText c0) = false) : Partial1 cs c0 (some (.text (new.take n)))
-  | tornBinary (bytes : List Nat) (hs : isSub STATIC (readText c0) = false) :
+      (hs : isStaticC c0 = false) : Partial1 cs c0 (some (.text (new.take n)))
+  | tornBinary (bytes : List Nat) (hs : isStaticC c0 = false) (hb : isSub (bytesOf STATIC) bytes = false) :
       Partial1 cs c0 (some (.binary bytes))
 
 /-- States an interrupted run can leave at a path nobody writes: untouched, or already
@@ -127,13 +135,5 @@ def CrashState (outs : List Write) (fs fs' : Fs) : Prop :=
     | [] => Partial0 (inScope p) (fs p) (fs' p)
     | [cs] => Partial1 cs (fs p) (fs' p)
     | _ => fs' p = fs p
-
-/-- ASCII bytes of a text (for directives inside non-UTF-8 files) -/
-def bytesOf (t : Text) : List Nat := t.map Char.toNat
-
-/-- the file *contains the directive* `m`, whatever its encoding -/
-def Content.contains (m : Text) : Content → Bool
-  | .text t => isSub m t
-  | .binary b => isSub (bytesOf m) b
 
 end Ln
